@@ -118,9 +118,14 @@ impl Prop for PPipe {
             }
             tree.push(json!({"parent": parent, "name": str_to_json(&name), "kind": kind, "target": 0}));
         }
-        let spell = if rootname.starts_with('-') || rng.chance(1, 3) { format!("./{}", rootname) } else { rootname.clone() };
+        // "exactly the starting point as given": also with trailing or doubled slashes and "." components, in every
+        // follow mode (there are no links in these trees, so the mode changes nothing)
+        let mut spell = if rootname.starts_with('-') || rng.chance(1, 3) { format!("./{}", rootname) } else { rootname.clone() };
+        if rng.chance(1, 3) {
+            spell.push_str(*rng.pick(&["/", "//", "/.", "/./"]));
+        }
         let roots = vec![json!({"spell": str_to_json(&spell), "node": 1})];
-        let cfg = json!({"mode": "P", "min": if rng.chance(1, 4) { 1 } else { 0 }, "max": super::pwalk::NOMAX, "depth": rng.chance(1, 5), "sorted": true, "prune": []});
+        let cfg = json!({"mode": *rng.pick(&["P", "P", "H", "L"]), "min": if rng.chance(1, 4) { 1 } else { 0 }, "max": super::pwalk::NOMAX, "depth": rng.chance(1, 5), "sorted": true, "prune": []});
         let pre = if rng.chance(1, 4) { json!({"p": "type", "c": "f"}) } else { json!({"p": "none"}) };
         json!({"tree": tree, "roots": roots, "cfg": cfg, "pre": pre})
     }
